@@ -348,6 +348,10 @@ def main():
                 # in C01's run) is that property's business
                 if klines and d["op"] and d["op"].split(" ")[0] not in klines and not d["op"].startswith("<"):
                     other_k += 1
+                elif d["impl"].startswith("panic") and not d["model"].startswith("panic"):
+                    # the real code panics on an input for which the specification has an answer: that input is a
+                    # concrete failure of the implementation (replayable), not merely a model disagreement
+                    O_fail.append((r, f"{prop} the implementation PANICS on protocol line {d['line']} `{d['op'][:160]}` where the specification answers `{d['model'][:80]}`"))
                 else:
                     K_fail.append((r, d))
             for m in r["oracle"]:
